@@ -58,6 +58,24 @@ void harness(void) {
   __CPROVER_assert(r != NULL, "COVER allocation refused");
   __CPROVER_assert(!(r != NULL && g_k < in_len && in_len > 70000), "COVER long string built, watched byte inside");
 }
+#elif defined(H_BUILD_CSTR)
+/* cbor_build_string: a NUL-terminated text of ANY length (strlen replaced by its assumed contract: no loop remains) */
+void harness(void) {
+  SETUP();
+  size_t in_len = nondet_size();
+  __CPROVER_assume(in_len < VERIF_MAXOBJ);
+  unsigned char *src = mk_block(in_len + 1);
+  __CPROVER_assume(src[in_len] == 0);
+  __CPROVER_assume(g_j >= in_len || src[g_j] != 0);
+  g_cs.valid = true; g_cs.base = (const char *)src; g_cs.len = in_len;
+  g_s.valid = true;
+  if (g_k < in_len) g_s.byte = src[g_k];
+  cbor_item_t *r = cbor_build_string((const char *)src);
+  __CPROVER_assert(r == NULL, "COVER constructed");
+  __CPROVER_assert(r != NULL, "COVER allocation refused");
+  __CPROVER_assert(!(r != NULL && g_k < in_len && in_len > 70000), "COVER long string built, watched byte inside");
+  __CPROVER_assert(!(r != NULL && in_len == 0), "COVER empty text built");
+}
 #elif defined(H_STRING_SET_HANDLE)
 void harness(void) {
   SETUP();
